@@ -294,8 +294,8 @@ def _parse_memcheck(xml):
 
 
 def unit_taint(ctx):
-    exe = build.build_harness("rel64", "ct_taint", ["ct_harness.c"], extra_cflags="-DCT_TAINT")
     P = ctx.params
+    exe = build.build_harness(P.get("build", "rel64"), "ct_taint", ["ct_harness.c"], extra_cflags="-DCT_TAINT")
     nvar, step = P["nvar"], P["step"]
     tallied = {}
     for tname in P["targets"]:
@@ -315,7 +315,7 @@ def unit_taint(ctx):
             cond = [e for e in errs if e[0] == "UninitCondition"]
             val = sum(e[3] for e in errs if e[0] == "UninitValue")
             other = [e for e in errs if e[0] not in ("UninitCondition", "UninitValue")]
-            tallied[tname + ("_fast" if fast else "")] = {"UninitCondition": sum(e[3] for e in cond), "UninitValue_tallied_only": val}
+            tallied[tname + ("_fast" if fast else "") + ("@" + P["build"] if P.get("build") else "")] = {"UninitCondition": sum(e[3] for e in cond), "UninitValue_tallied_only": val}
             if fast:
                 if not cond and tname != "memEq":
                     # positive control silent => the monitor cannot be trusted
@@ -325,7 +325,7 @@ def unit_taint(ctx):
                 if tname in ALLOWED_DECISION and inner == tname:
                     tallied[tname]["allowed_decision_branches"] = tallied[tname].get("allowed_decision_branches", 0) + cnt
                     continue
-                ctx.violation("ct:tainted-branch:%s:%s" % (inner, tname),
+                ctx.violation("ct:tainted-branch:%s:%s" % (inner, tname) + ("@" + P["build"] if P.get("build") else ""),
                               "conditional jump in %s depends on secret data (entry %s)" % (inner, tname),
                               {"stack": fns, "count": cnt, "target": tname})
             for kind, inner, entry, cnt, fns in other:
@@ -388,6 +388,13 @@ def jobs(tier, scale=1.0):
                    "params": {"targets": [t], "control": True,
                               "nvar": (2 if heavy else 4) if q else (6 if heavy else 16),
                               "step": (23 if heavy else 3) if q else (5 if heavy else 1)}})
+    if not q:
+        # the same targets on the clang -O3 machine code
+        for t in tg:
+            heavy = t in SYM_TARGETS
+            js.append({"cfg": "none", "unit": "c14:unit_taint", "timeout": 3000,
+                       "params": {"targets": [t], "control": True, "build": "clangrel",
+                                  "nvar": 3 if heavy else 6, "step": 11 if heavy else 3}})
     return js
 
 
